@@ -149,6 +149,10 @@ Wire ==
        /\ bytesOut' = IF fromS THEN [bytesOut EXCEPT ![p] = out] ELSE bytesOut
        /\ bad' = bad \cup (IF fromS /\ ~verified[p] /\ out >= bytesIn[p]
                            THEN Flag("C18", "bytes-to-unverified-address-not-below-bytes-from-it") ELSE {})
+                     \* "undersized connection requests are ignored": a handshake reply goes only to an address from
+                     \* which a full-size (1472 byte) SYN has arrived
+                     \cup (IF fromS /\ Cur.type \in {"SYNACK", "ERR"} /\ ~\E y \in synSeen[p] : y.len >= 1472
+                           THEN Flag("C18", "undersized-connection-request-answered") ELSE {})
                      \cup (IF fromS /\ Cur.type = "ERR" /\ Cur.err = "ServerFull"
                               \* wire lines of a server step are logged after its StepEnd: the refusal was decided in
                               \* that step, when at most (tracked before the step + addresses whose SYN it read) were tracked
@@ -186,7 +190,7 @@ Fwd ==
        /\ bytesIn' = IF toS THEN [bytesIn EXCEPT ![p] = @ + Cur.len] ELSE bytesIn
        /\ inbox' = [inbox EXCEPT ![k] = Append(@, Cur)]
        /\ synSeen' = IF toS /\ Cur.type = "SYN"
-                     THEN [synSeen EXCEPT ![p] = @ \cup {[nonce |-> Nonce(Cur, "nonce", "nonce_lsb"), version |-> Cur.version, psize |-> Cur.max_packet_size, alloc |-> Cur.max_receive_alloc]}]
+                     THEN [synSeen EXCEPT ![p] = @ \cup {[nonce |-> Nonce(Cur, "nonce", "nonce_lsb"), version |-> Cur.version, psize |-> Cur.max_packet_size, alloc |-> Cur.max_receive_alloc, len |-> Cur.len]}]
                      ELSE synSeen
        /\ synThisStep' = IF toS /\ Cur.type = "SYN" THEN synThisStep \cup {p} ELSE synThisStep
        /\ ackFwd' = IF toS /\ Cur.type = "ACK" THEN [ackFwd EXCEPT ![p] = @ \cup {Nonce(Cur, "nonce_ack", "nonce_ack_lsb")}] ELSE ackFwd
